@@ -1204,7 +1204,9 @@ func sharpYUVConvert(img image.Image) (*image.YCbCr, error) {
 				dstOff += 3
 			}
 		}
-	} else if rgba, ok := img.(*image.RGBA); ok && validRGBA(rgba, w, h) {
+	} else if rgba, ok := img.(*image.RGBA); ok && validRGBA(rgba, w, h) && rgba.Opaque() {
+		// Premultiplied pixels equal the non-premultiplied ones only when opaque;
+		// otherwise the generic path below un-premultiplies.
 		for y := 0; y < h; y++ {
 			srcOff := (y+bounds.Min.Y-rgba.Rect.Min.Y)*rgba.Stride + (bounds.Min.X-rgba.Rect.Min.X)*4
 			dstOff := y * rgbStride
